@@ -5,7 +5,9 @@ package h_c23
 import (
 	"encoding/json"
 	"fmt"
+	"os"
 	"strings"
+	"sync"
 	"testing"
 	"testing/synctest"
 	"time"
@@ -591,6 +593,7 @@ func TestVerif_C23_PickDone(t *testing.T) {
 		c23Evaluate(r, c)
 		return
 	}
+	c23StartWatchdog(r)
 	cases := c23Cases(maxPrelude)
 	if sh, _ := r.Shard(); sh == 0 {
 		r.Set(P, "histories_total", len(cases))
@@ -604,8 +607,10 @@ func TestVerif_C23_PickDone(t *testing.T) {
 			r.Cap(P, "time budget")
 			break
 		}
+		c23WatchCase(c.String(), c)
 		c23Evaluate(r, c)
 	}
+	c23WatchCase("", nil)
 }
 
 func c23Evaluate(r *vk.Run, c c23Case) {
@@ -638,4 +643,40 @@ func c23Evaluate(r *vk.Run, c c23Case) {
 		b, _ := json.Marshal(c)
 		r.Sample(P, map[string]any{"case": json.RawMessage(b), "name": c.String(), "outcome": res.Outcome, "trace": res.Trace})
 	}
+}
+
+// c23Watch turns a history that cannot reach quiescence (a goroutine parked on
+// a non-durable primitive such as a mutex held across a wait, or a zero-time
+// livelock) into a verdict instead of a worker killed by the driver's timeout:
+// a goroutine OUTSIDE the bubbles (real clock) watches the current case.
+type c23WatchState struct {
+	mu    sync.Mutex
+	name  string
+	c     any
+	since time.Time
+}
+
+var c23Watched c23WatchState
+
+const c23HangLimit = 150 * time.Second // real time; a history normally takes milliseconds
+
+func c23WatchCase(name string, c any) {
+	c23Watched.mu.Lock()
+	c23Watched.name, c23Watched.c, c23Watched.since = name, c, time.Now()
+	c23Watched.mu.Unlock()
+}
+
+func c23StartWatchdog(r *vk.Run) {
+	go func() {
+		for {
+			time.Sleep(time.Second)
+			c23Watched.mu.Lock()
+			name, c, since := c23Watched.name, c23Watched.c, c23Watched.since
+			c23Watched.mu.Unlock()
+			if name != "" && time.Since(since) > c23HangLimit {
+				r.Violation("C23", "hang: "+name, fmt.Sprintf("the history did not reach quiescence within %v of real time: some goroutine is neither runnable-to-completion nor durably blocked (e.g. parked on a mutex that is held across a timer wait), so virtual time cannot advance and the call never ends", c23HangLimit), c)
+				os.Exit(3)
+			}
+		}
+	}()
 }
